@@ -195,7 +195,9 @@ class _P:
             if name in ("module", "callable"):                          # x6: known by class name and fields only
                 return WireObj(name, fields)
             if name == "Message":                                        # x7: the real message is re-parsed from its source
-                return _x7_parse(fields["source"])
+                m_ = _x7_parse(fields["source"])
+                m_.__dict__["_x9_source"] = fields["source"]             # x9: kept for the answer of `_get_payload__io`
+                return m_
             cls, _ = _OBJ_CLASSES[name]
             if issubclass(cls, tuple):
                 return cls(**fields)
@@ -2192,6 +2194,300 @@ FUNCS.update({
 EXT_FUNCS |= {"Metadata.from_raw", "Metadata.from_email"}
 X7_WRAP = {"Metadata.from_raw": _x7_wrap_from, "Metadata.from_email": _x7_wrap_from}
 # ------------------------------------------------------------------------------------------------ x7 end
+
+
+# ------------------------------------------------------------------------------------------------ x9: ninth round
+# ---- x9: the methods of the tokenizer (C07, C08, C09): the receiver travels like the tokenizer of the parser functions and comes
+# back with the result (STATE_FUNCS)
+_X9_RULE_EXTRA = ["NOPE", "", "ws", None, 3]
+
+
+def _x9_rule_names():
+    from packaging import _tokenizer as TK
+    return list(TK.DEFAULT_RULES)
+
+
+def _x9_tok(rng, loaded=False):
+    """a tokenizer some tokens into a marker / requirement text (or at a random offset); `loaded`: with a token checked but not read"""
+    from packaging import _tokenizer as TK
+    text, _ = _parser_text(rng)
+    t = TK.Tokenizer(text, rules=TK.DEFAULT_RULES)
+    names = _x9_rule_names()
+    if rng.random() < 0.2:
+        t.position = rng.randrange(len(text) + 1)
+    else:
+        for _ in range(rng.randrange(0, 9)):
+            order = rng.sample(names, len(names))
+            hit = next((n for n in order if n != "END" and t.check(n, peek=True)), None)
+            if hit is None:
+                break
+            t.check(hit)
+            t.read()
+    if loaded:
+        order = rng.sample(names, len(names))
+        hit = next((n for n in order if t.check(n, peek=True)), None)
+        if hit is not None:
+            t.check(hit)
+    return t
+
+
+def _x9_name(rng, t):
+    """a rule name: one that matches at the position of `t` half of the time"""
+    names = _x9_rule_names()
+    if rng.random() < 0.5 and t.next_token is None:
+        order = rng.sample(names, len(names))
+        hit = next((n for n in order if t.check(n, peek=True)), None)
+        if hit is not None:
+            return hit
+    if rng.random() < 0.08:
+        return rng.choice(_X9_RULE_EXTRA)
+    return rng.choice(names)
+
+
+def _g_tok_check(rng):
+    t = _x9_tok(rng, loaded=rng.random() < 0.12)
+    return [t, _x9_name(rng, t), rng.choice([False, False, True])]
+
+
+def _g_tok_read(rng):
+    return [_x9_tok(rng, loaded=rng.random() < 0.85)]
+
+
+def _g_tok_expect(rng):
+    t = _x9_tok(rng, loaded=rng.random() < 0.06)
+    return [t, _x9_name(rng, t), rng.choice(["a name", "comma", ""])]
+
+
+def _g_tok_consume(rng):
+    t = _x9_tok(rng, loaded=rng.random() < 0.06)
+    return [t, _x9_name(rng, t)]
+
+
+def _g_tok_raise(rng):
+    t = _x9_tok(rng, loaded=rng.random() < 0.2)
+    return [t, rng.choice(["Expected x", ""]), rng.choice([None, None, 0, 3]), rng.choice([None, None, 5])]
+
+
+def _x9_pair(rng, t):
+    r = rng.random()
+    if r < 0.7:
+        return rng.choice([("LEFT_PARENTHESIS", "RIGHT_PARENTHESIS"), ("LEFT_BRACKET", "RIGHT_BRACKET")])
+    return (_x9_name(rng, t), _x9_name(rng, t))
+
+
+def _g_tok_enter(rng):
+    t = _x9_tok(rng, loaded=rng.random() < 0.05)
+    o, c = _x9_pair(rng, t)
+    return [t, o, c, rng.choice(["name", "marker expression"])]
+
+
+def _g_tok_with(rng):
+    from packaging import _tokenizer as TK
+    if rng.random() < 0.6:                                   # an opening token, something inside, (maybe) the closing one
+        o, c, oc, cc = rng.choice([("LEFT_PARENTHESIS", "RIGHT_PARENTHESIS", "(", ")"), ("LEFT_BRACKET", "RIGHT_BRACKET", "[", "]")])
+        inner, body = rng.choice([("abc", "IDENTIFIER"), ("  ", "WS"), ("", "WS"), ("os_name", "VARIABLE"), ("'x'", "QUOTED_STRING"), ("x", "WS")])
+        text = rng.choice(["", "  ", "name"]) + oc + inner + rng.choice([cc, cc, "", " " + cc, "]"]) + rng.choice(["", " tail"])
+        t = TK.Tokenizer(text, rules=TK.DEFAULT_RULES)
+        t.position = text.index(oc) if rng.random() < 0.85 else rng.randrange(len(text) + 1)
+        return [t, o, c, "x", body]
+    t = _x9_tok(rng, loaded=rng.random() < 0.05)
+    o, c = _x9_pair(rng, t)
+    return [t, o, c, "x", _x9_name(rng, t)]
+
+
+def _x9_live_locals():
+    """the locals of `Tokenizer.enclosing_tokens` that live across its `yield`, as the translator computes them"""
+    import ast as _ast
+    import inspect as _inspect
+    import textwrap as _tw
+    from packaging import _tokenizer as TK
+    from translators import pysrc as _PS
+    f = _inspect.unwrap(TK.Tokenizer.enclosing_tokens)
+    node = _ast.parse(_tw.dedent(_inspect.getsource(f))).body[0]
+    n0 = len(node.args.args)
+    ex, _ = _PS._x9_split_generator(node, "exit")
+    return [a.arg for a in ex.args.args[1:1 + len(ex.args.args) - n0]]
+
+
+def _x9_wrap_enter(f):
+    def w(tok, open_token, close_token, around):
+        cm = f(tok, open_token, close_token, around=around)
+        cm.__enter__()
+        live = _x9_live_locals()
+        loc = cm.gen.gi_frame.f_locals
+        return loc[live[0]] if len(live) == 1 else tuple(loc[v] for v in live)
+    return w
+
+
+def _x9_wrap_with(f):
+    def w(tok, open_token, close_token, around, body):
+        with f(tok, open_token, close_token, around=around):
+            tok.consume(body)
+        return None
+    return w
+
+
+_TKM = "packaging._tokenizer"
+FUNCS.update({
+    "Tokenizer.check": (_TKM, "Tokenizer.check", _g_tok_check),
+    "Tokenizer.read": (_TKM, "Tokenizer.read", _g_tok_read),
+    "Tokenizer.expect": (_TKM, "Tokenizer.expect", _g_tok_expect),
+    "Tokenizer.consume": (_TKM, "Tokenizer.consume", _g_tok_consume),
+    "Tokenizer.raise_syntax_error": (_TKM, "Tokenizer.raise_syntax_error", _g_tok_raise),
+    "Tokenizer.enclosing_tokens__enter": (_TKM, "Tokenizer.enclosing_tokens", _g_tok_enter),
+    "Tokenizer.enclosing_tokens__with": (_TKM, "Tokenizer.enclosing_tokens", _g_tok_with),
+})
+X9_TOK_FUNCS = ["Tokenizer.check", "Tokenizer.read", "Tokenizer.expect", "Tokenizer.consume", "Tokenizer.raise_syntax_error",
+                "Tokenizer.enclosing_tokens__enter", "Tokenizer.enclosing_tokens__with"]
+STATE_FUNCS |= set(X9_TOK_FUNCS)
+X7_WRAP.update({"Tokenizer.enclosing_tokens__enter": _x9_wrap_enter, "Tokenizer.enclosing_tokens__with": _x9_wrap_with})
+X9_TOK_THEOREMS = ["Src.Tokenizer.check_translated", "Src.Tokenizer.check_eq_model",
+                   "Src.Tokenizer.read_translated", "Src.Tokenizer.read_eq_model",
+                   "Src.Tokenizer.expect_translated", "Src.Tokenizer.expect_eq_model",
+                   "Src.Tokenizer.consume_translated", "Src.Tokenizer.consume_eq_model",
+                   "Src.Tokenizer.raise_syntax_error_translated", "Src.Tokenizer.raise_syntax_error_eq_model",
+                   "Src.Tokenizer.enclosing_tokens__enter_translated", "Src.Tokenizer.enclosing_tokens__enter_eq_model",
+                   "Src.Tokenizer.enclosing_tokens__exit_translated", "Src.Tokenizer.enclosing_tokens__exit_eq_model",
+                   "Src.Tokenizer.wf_new", "Src.Tokenizer.wf_preserved"]
+X9_TOK_MODULE = "PkgProofs.Props.Src.Tokenizer"
+
+# ---- x9: `parse_email` (C18).  The standard-library parser answers through the oracle table under the key the translator derives
+# from the source text of the call (`pysrc._X9MailRewrite.parser_call`); the answer is the wire form of the message the *real*
+# call returned (captured while the real function runs), `str.lower` answers for every header name.
+def _x9_wire_message(parsed, data):
+    """like `_x7_message`, from a message object (which is left alone)"""
+    import copy
+    import email.header
+    hdrs = []
+    for k, v in parsed.items():
+        if isinstance(v, email.header.Header):
+            try:
+                hv = WireObj("Header", {"chunks": [b for b, _ in email.header.decode_header(v)]})
+            except Exception as e:
+                hv = WireObj("HeaderErr", {"cls": type(e).__name__})
+        else:
+            hv = v
+        hdrs.append((k, hv))
+    other = WireObj("other", {})
+
+    def pl(m, **kw):
+        try:
+            p = m.get_payload(**kw)
+        except Exception as e:
+            return Raise(type(e).__name__)
+        return p if isinstance(p, (str, bytes)) else other
+    fields = {"headers": hdrs, "payload": pl(parsed), "decoded_cte": pl(copy.deepcopy(parsed), decode=True)}
+    stripped = copy.deepcopy(parsed)
+    del stripped["content-transfer-encoding"]
+    fields["decoded"] = pl(stripped, decode=True)
+    fields["source"] = data
+    return WireObj("Message", fields)
+
+
+def _x9_parser_keys():
+    """oracle keys of the parser calls in the current source of `parse_email`: {method name: key}"""
+    import ast as _ast
+    import inspect as _inspect
+    import textwrap as _tw
+    from packaging import metadata as MD
+    from translators import pysrc as _PS
+
+    class _Stub:
+        globals = vars(MD)
+        x9_msgs = set()
+    rw = _PS._X9MailRewrite(_Stub())
+    rw.fn_locals = set()
+    out = {}
+    node = _ast.parse(_tw.dedent(_inspect.getsource(MD.parse_email)))
+    for n in _ast.walk(node):
+        pc = rw.parser_call(n)
+        if pc is not None:
+            out.setdefault(n.func.attr, []).append(pc[0])
+    return out
+
+
+def _x9_parse_email_oracle(data):
+    import copy
+    import email.parser
+    from packaging import metadata as MD
+    seen = []
+    saved = (email.parser.Parser.parsestr, email.parser.BytesParser.parsebytes)
+
+    def wrap(orig, meth):
+        def w(self, text, *a, **kw):
+            m = orig(self, text, *a, **kw)
+            if text is data or (type(text) is type(data) and text == data):
+                seen.append((meth, _x9_wire_message(copy.deepcopy(m), data), [k for k in m.keys()]))
+            return m
+        return w
+    email.parser.Parser.parsestr = wrap(saved[0], "parsestr")
+    email.parser.BytesParser.parsebytes = wrap(saved[1], "parsebytes")
+    try:
+        try:
+            MD.parse_email(data)
+        except Exception:
+            pass
+    finally:
+        email.parser.Parser.parsestr, email.parser.BytesParser.parsebytes = saved
+    oracle = []
+    keys = _x9_parser_keys()
+    names = []
+    for meth, wire, ks in seen[:1]:          # the outermost call (BytesParser.parsebytes goes through Parser.parsestr-like paths)
+        for key in keys.get(meth, []):
+            oracle.append((key, (data,), wire))
+        names = ks
+    done = set()
+    for k in names:
+        if k not in done:
+            done.add(k)
+            oracle.append(("str.lower", (k,), k.lower()))
+    return oracle
+
+
+def _x9_mail_data(rng):
+    from gen import metadata as GM
+    doc = GM.document(rng, wellformed=rng.random() < 0.4)
+    if rng.random() < 0.3:                      # a Content-Transfer-Encoding header and a body it would rewrite
+        doc["headers"].append([rng.choice(["Content-Transfer-Encoding", "content-transfer-encoding", "CONTENT-TRANSFER-ENCODING"]),
+                               ["t", rng.choice(["base64", "quoted-printable", "8bit", "x-uuencode", "BASE64"])]])
+        r = rng.random()
+        if r < 0.55:
+            doc["body"] = ["t", rng.choice(["aGVsbG8=\n", "=41=42 c\n", "plain", "aGVsbG8", "=FF\n", "/w==\n"])]
+        elif r < 0.8:                           # an undecodable body next to the header: the `except ValueError` branch reads the
+            doc["body"] = ["x", rng.choice(["ff0a", "61ff62", "c3", "2f773d3dff"])]     # payload of the message *after* the deletion
+            doc["bytes"] = doc["bytes"] or rng.random() < 0.8
+    return GM.build_doc(doc)
+
+
+def _g_parse_email(rng):
+    data = _x9_mail_data(rng)
+    return [_x9_parse_email_oracle(data), data]
+
+
+def _g_get_payload_io(rng):
+    return _g_get_payload(rng)
+
+
+def _x9_wrap_io(f):
+    """`_get_payload(msg, source)`: what it returned or raised, and the message afterwards"""
+    def w(msg, source):
+        src = msg.__dict__.get("_x9_source")
+        before = _x9_wire_message(msg, src)          # the payload fields belong to the value; only the header list changes
+        try:
+            r = f(msg, source)
+        except Exception as e:
+            r = WireObj("raised", {"exc": WireObj(type(e).__name__, {})})
+        fields = dict(before.fields)
+        fields["headers"] = _x9_wire_message(msg, src).fields["headers"]
+        return (r, WireObj("Message", fields))
+    return w
+
+
+FUNCS["parse_email"] = (_MDM, "parse_email", _g_parse_email)
+EXT_FUNCS |= {"parse_email"}
+FUNCS["_get_payload__io"] = (_MDM, "_get_payload", _g_get_payload_io)
+X7_WRAP["_get_payload__io"] = _x9_wrap_io
+# ------------------------------------------------------------------------------------------------ x9 end
 
 
 class _Src:
